@@ -21,7 +21,7 @@ def make_spy(sizes, dims):
     class Spy(BaseGenerator):
         def __init__(self):
             super().__init__()
-            self.size = sizes[0]
+            self.size = next((s for s in sizes if s > 0), 1)      # nominal size (an occasional draw may come up shorter or empty)
             self.draws = []
             self.counter = 0
 
@@ -80,6 +80,11 @@ def scripts(tier, seed):
     small = list(itertools.product([(1,), (2,), (3,), (1, 2), (2, 1, 3)], [1, 2, 3], [1, 2, 3, 4]))
     for sizes, dims, bs in (small if tier == 'thorough' else rng.sample(small, 12)):
         out.append(dict(sizes=list(sizes), dims=dims, bs=bs, ncalls=rng.randint(1, 8), via_filter=rng.random() < 0.3))
+    # underlying generators that occasionally come up empty (a filter rejecting every point of a draw): the batch generator
+    # keeps drawing, every batch still has exactly the requested size and nothing is lost or reordered
+    for sizes in ([2, 0, 3], [0, 1], [1, 0, 0, 4], [3, 0], [0, 0, 2, 5]):
+        for _ in range(1 if tier == 'quick' else 6):
+            out.append(dict(sizes=sizes, dims=rng.randint(1, 3), bs=rng.randint(1, 9), ncalls=rng.randint(2, 10), via_filter=rng.random() < 0.3))
     for _ in range(40 if tier == 'quick' else 600):
         k = rng.randint(1, 4)
         out.append(dict(sizes=[rng.randint(1, 8) for _ in range(k)], dims=rng.randint(1, 3), bs=rng.randint(1, 20),
@@ -109,11 +114,12 @@ def check(tier, seed):
     lines, dt = run_driver('C14', '\n'.join(blocks) + '\n')
     mblocks = split_blocks(lines)
     mismatches = []
-    hist = dict(batch_gt_size=0, batch_lt_size=0, varying=0, dims={1: 0, 2: 0, 3: 0}, draws=0, calls=0)
+    hist = dict(batch_gt_size=0, batch_lt_size=0, varying=0, with_empty_draws=0, dims={1: 0, 2: 0, 3: 0}, draws=0, calls=0)
     for (s, draws, out, cached), mb in zip(reals, mblocks):
         want = [f'batch {fmt_dims(b)}' for b in out] + [f'cached {fmt_dims(cached)}', f'next {len(draws)}']
         hist['batch_gt_size' if s['bs'] > max(s['sizes']) else 'batch_lt_size'] += 1
         hist['varying'] += len(set(s['sizes'])) > 1
+        hist['with_empty_draws'] += 0 in s['sizes']
         hist['dims'][s['dims']] += 1
         hist['draws'] += len(draws); hist['calls'] += s['ncalls']
         if want != mb:
@@ -134,7 +140,7 @@ def check(tier, seed):
              'outputs + final cache + number of draws compared exactly',
         input_distribution=hist, driver_seconds=round(dt, 1))
     rep.samples = [dict(script=s, first_batches=out[:2]) for s, _, out, _ in reals[:4]]
-    rep.assumptions = ['the underlying generator keeps producing non-empty draws (termination hypothesis of batch_size_exact)',
+    rep.assumptions = ['batch_size_exact is proved for underlying generators whose draws are all non-empty (termination hypothesis); occasional empty draws are exercised by the correspondence only',
                        'tensor concatenation/slicing behave as list append/take/drop (torch, trusted; observed by the correspondence)']
     for f in failing[:3]:
         rep.violation(dict(kind='failing-input', input=f, broken=broken))
